@@ -420,40 +420,45 @@ func checkMeshSDF2(r *ev.Run, nm cat.Named2, n int) {
 func checkProfile(r *ev.Run, n int) {
 	for _, s2 := range ref.Shapes2() {
 		obj := s2.Obj.(sdfObj2)
-		minZ, maxZ := -0.4, 1.1
-		want := func(p model3d.Coord3D) float64 {
-			d2 := s2.SDF(model2d.XY(p.X, p.Y))
-			dz := math.Min(p.Z-minZ, maxZ-p.Z)
-			if d2 >= 0 && dz >= 0 {
-				return math.Min(d2, dz)
+		for _, slab := range [][2]float64{{-0.4, 1.1}, {-0.5, 0.5}, {1, 2}} {
+			minZ, maxZ := slab[0], slab[1]
+			want := func(p model3d.Coord3D) float64 {
+				d2 := s2.SDF(model2d.XY(p.X, p.Y))
+				dz := math.Min(p.Z-minZ, maxZ-p.Z)
+				if d2 >= 0 && dz >= 0 {
+					return math.Min(d2, dz)
+				}
+				return -math.Hypot(math.Max(-d2, 0), math.Max(-dz, 0))
 			}
-			return -math.Hypot(math.Max(-d2, 0), math.Max(-dz, 0))
-		}
-		ps := model3d.ProfileSDF(obj, minZ, maxZ)
-		pps := model3d.ProfilePointSDF(obj, minZ, maxZ)
-		e := 2 * s2.Extent
-		for i := 0; i < n; i++ {
-			for j := 0; j < n; j++ {
-				for k := 0; k < n; k++ {
-					f := func(t int) float64 { return (float64(t)/float64(n-1))*2 - 1 }
-					p := model3d.XYZ(s2.Center.X+f(i)*e+0.0137*e, s2.Center.Y+f(j)*e-0.0071*e, 0.35+f(k)*1.7)
-					r.Eval(1)
-					r.NontrivialAdd(1)
-					w := want(p)
-					c := sdfCase{"ProfileSDF(" + s2.Name + ")", []float64{p.X, p.Y, p.Z}, "SDF"}
-					if got := ps.SDF(p); !(math.Abs(got-w) <= 1e-9*(s2.Extent+s2.Center.Norm()+2)) {
-						r.Violation("ProfileSDF/distance", fmt.Sprintf("%s at %v: SDF=%.12g, reference %.12g", s2.Name, p, got, w), c)
-					}
-					q, d := pps.PointSDF(p)
-					if !(math.Abs(d-w) <= 1e-9*(s2.Extent+s2.Center.Norm()+2)) || !(math.Abs(want(q)) <= 1e-7*(s2.Extent+2)) || !(math.Abs(q.Dist(p)-math.Abs(w)) <= 1e-7*(s2.Extent+2)) {
-						r.Violation("ProfilePointSDF/point", fmt.Sprintf("%s at %v: point %v (surface distance %g), distance %g, reference %g", s2.Name, p, q, want(q), d, w), c)
+			ps := model3d.ProfileSDF(obj, minZ, maxZ)
+			pps := model3d.ProfilePointSDF(obj, minZ, maxZ)
+			e := 2 * s2.Extent
+			for i := 0; i < n; i++ {
+				for j := 0; j < n; j++ {
+					for k := 0; k < n; k++ {
+						f := func(t int) float64 { return (float64(t)/float64(n-1))*2 - 1 }
+						p := model3d.XYZ(s2.Center.X+f(i)*e+0.0137*e, s2.Center.Y+f(j)*e-0.0071*e, 0.35+f(k)*1.7)
+						// the slab's own planes: exactly half way (both caps equally near), the caps, a quarter
+						if k < 4 {
+							p.Z = []float64{(minZ + maxZ) / 2, minZ, maxZ, minZ + (maxZ-minZ)/4}[k]
+						}
+						r.Eval(1)
+						r.NontrivialAdd(1)
+						w := want(p)
+						c := sdfCase{"ProfileSDF(" + s2.Name + ")", []float64{p.X, p.Y, p.Z}, "SDF"}
+						if got := ps.SDF(p); !(math.Abs(got-w) <= 1e-9*(s2.Extent+s2.Center.Norm()+2)) {
+							r.Violation("ProfileSDF/distance", fmt.Sprintf("%s at %v: SDF=%.12g, reference %.12g", s2.Name, p, got, w), c)
+						}
+						q, d := pps.PointSDF(p)
+						if !(math.Abs(d-w) <= 1e-9*(s2.Extent+s2.Center.Norm()+2)) || !(math.Abs(want(q)) <= 1e-7*(s2.Extent+2)) || !(math.Abs(q.Dist(p)-math.Abs(w)) <= 1e-7*(s2.Extent+2)) {
+							r.Violation("ProfilePointSDF/point", fmt.Sprintf("%s at %v: point %v (surface distance %g), distance %g, reference %g", s2.Name, p, q, want(q), d, w), c)
+						}
 					}
 				}
 			}
 		}
 	}
 }
-
 
 // ---- feature points of segment-based shapes on a lattice of end points ----
 //
@@ -575,7 +580,6 @@ func featureStage(r *ev.Run, th bool) {
 	r.Set("feature_point_cases", len(cases))
 }
 
-
 // ---- ColliderToSDF: bisection on ball tests ----
 //
 // The search brackets the distance by doubling/halving from 1 and then bisects `iterations` times with
@@ -636,7 +640,6 @@ func colliderSDFStage(r *ev.Run, n int) {
 		}
 	})
 }
-
 
 // ---- segments: Dist/Closest (Euclidean) and L1Dist/ClosestL1, every lattice segment x every lattice query ----
 //
